@@ -8,7 +8,6 @@ T4 = ["Backoff"]
 PROOF_MODULES = ["GrpcProofs.Properties.C20"]
 THEOREMS = ["GrpcProofs.C20." + t for t in (
     "retries0_is_base", "nonneg", "band", "saturates", "grow_is_min",
-    "go_conversion_negative_counterexample", "go_agrees_below_2_63",
     "waits_at_least_backoff_unless_reset", "idx_counts_failures_since_success_or_reset",
     "idx_resets_on_success", "idx_resets_on_reset")]
 DESIGN_REF = "DESIGN.md section 8, C20"
@@ -16,9 +15,9 @@ TECHNIQUE = ("Lean 4 theorems over Q (Mathlib linarith/positivity) for the backo
              "addrConn pacing; T1 differential + interval monitor on Exponential.Backoff; T2 synctest run of a real ClientConn "
              "with a scripted dialer and a recording backoff strategy; T4 minConnectTimeout")
 LEVEL_TEXT = ("Machine-checked proof, for every configuration, retry count and random draw, that the real-number reading of "
-              "Exponential.Backoff with a saturating conversion is non-negative, equals the base delay for 0 retries and lies in the "
-              "[(1-j),(1+j)] x min(base*mult^n, max) band (truncated, saturating at MaxInt64); a kernel-checked counterexample shows the "
-              "unchanged float->int64 conversion yields MinInt64 (F1). For every sequence of connect/fail/success/timer/reset events the "
+              "Exponential.Backoff (with the saturating conversion the code performs since fix 8a2d107, finding F1) is non-negative, "
+              "equals the base delay for 0 retries and lies in the "
+              "[(1-j),(1+j)] x min(base*mult^n, max) band (truncated, saturating at MaxInt64). For every sequence of connect/fail/success/timer/reset events the "
               "addrConn pacing model never redials before failure time + backoff unless reset, and its index is the number of failures "
               "since the last success or reset.")
 LEVEL_NOTE = ("Reading: BaseDelay, MaxDelay >= 0 and finite Multiplier/Jitter (Backoff(0) returns a negative BaseDelay as is; Inf/NaN "
@@ -54,7 +53,7 @@ def bo(base, mult, jit, mx, retries, k):
 def gen_backoff(rng, tier):
     ops = []
     k = {"quick": 8, "thorough": 64, "search": 32}[tier]
-    # F1 witnesses first (DESIGN.md section 7): must be reported (known finding), never silent
+    # F1 witnesses first (DESIGN.md section 7; repaired by /repo 8a2d107): must saturate at MaxInt64
     ops.append(bo(10**9, 1e6, 0.2, MAXI, 5, 64))
     ops.append(bo(MAXI, 1.0, 0.0, MAXI, 1, 1))
     # default config, every index the subchannel can reach
@@ -76,19 +75,9 @@ def gen_backoff(rng, tier):
         if rng.random() < 0.01:
             n, m = 10**5, rng.choice([1.0, 1.6, 2.0])   # long loop only where it stays cheap for the rational model
         ops.append(bo(b, m, j, x, n, 1 if n == 0 else k))
-    # ops whose real-valued result can come near 2^63 travel alone: the check reports the first
-    # violation of a case, so a listed finding (F1) must never share a case with other ops
-    def risky(op):
-        f = op.split()
-        b, x = abs(int(f[1])), abs(int(f[4]))
-        j = abs(struct.unpack("<d", struct.pack("<Q", int(f[3])))[0])
-        return (1 + j) * max(b, x) >= 2.0**61 or j > 1e6
-    safe = [o for o in ops if not risky(o)]
-    for i, o in enumerate(o for o in ops if risky(o)):
-        yield Case("backoff", [o], "backoff-large-%d" % i)
     chunk = 4000
-    for i in range(0, len(safe), chunk):
-        yield Case("backoff", safe[i:i + chunk], "backoff-batch-%d" % (i // chunk))
+    for i in range(0, len(ops), chunk):
+        yield Case("backoff", ops[i:i + chunk], "backoff-batch-%d" % (i // chunk))
 
 
 def gen_pacing(rng, tier):
